@@ -103,7 +103,9 @@ Record hsnap := mkHS { hs_key : N; hs_amt : N; hs_total : N; hs_expiry : Z; hs_h
 Record isnap := mkIS { is_hash : N; is_state : cstate; is_paid : N; is_pre : option N;
                        is_htlcs : list hsnap;
                        (* Invoice.AMPState: (set id, State, AmtPaid) *)
-                       is_sets : list (N * (hstate * N)) }.
+                       is_sets : list (N * (hstate * N));
+                       (* Invoice.AMPState[set].InvoiceKeys: (set id, circuit keys ascending) *)
+                       is_keys : list (N * list N) }.
 
 Definition amp_matches (h : htlc) (a : option (N * N * option N)) : bool :=
   match h_set h, a with
@@ -127,7 +129,28 @@ Definition htlc_matches (l : list (N * htlc)) (s : hsnap) : bool :=
     hstate_eqb (h_state h) (hs_state s) && amp_matches h (hs_amp s)
   end.
 
-Definition inv_matches (l : list invoice) (s : isnap) : bool :=
+(* AMPState[set].InvoiceKeys against the model's projection of the htlc map
+   (the keys of the htlcs carrying the set id).  Compared on the SQL store
+   only: the KV store persists the key set separately and keeps the keys of
+   records it dropped (finding C15-F2). *)
+Fixpoint n_insert (x : N) (l : list N) : list N :=
+  match l with
+  | [] => [x]
+  | y :: r => if N.leb x y then x :: l else y :: n_insert x r
+  end.
+Definition n_sort (l : list N) : list N := fold_right n_insert [] l.
+Fixpoint nlist_eqb (a b : list N) : bool :=
+  match a, b with
+  | [], [] => true
+  | x :: r, y :: s => N.eqb x y && nlist_eqb r s
+  | _, _ => false
+  end.
+Definition set_keys (sid : N) (l : list (N * htlc)) : list N :=
+  n_sort (map fst (filter (fun kh => in_set sid (snd kh)) l)).
+Definition keys_match (l : list (N * htlc)) (x : N * list N) : bool :=
+  nlist_eqb (set_keys (fst x) l) (snd x).
+
+Definition inv_matches (kv : bool) (l : list invoice) (s : isnap) : bool :=
   match find_by_hash (is_hash s) l with
   | None => false
   | Some i =>
@@ -136,11 +159,13 @@ Definition inv_matches (l : list invoice) (s : isnap) : bool :=
     Nat.eqb (length (i_htlcs i)) (length (is_htlcs s)) &&
     forallb (htlc_matches (i_htlcs i)) (is_htlcs s) &&
     Nat.eqb (length (i_sets i)) (length (is_sets s)) &&
-    forallb (set_matches (i_sets i)) (is_sets s)
+    forallb (set_matches (i_sets i)) (is_sets s) &&
+    (kv || (Nat.eqb (length (i_sets i)) (length (is_keys s)) &&
+            forallb (keys_match (i_htlcs i)) (is_keys s)))
   end.
 
-Definition snap_matches (st : state) (sn : list isnap) : bool :=
-  Nat.eqb (length (invs st)) (length sn) && forallb (inv_matches (invs st)) sn.
+Definition snap_matches (kv : bool) (st : state) (sn : list isnap) : bool :=
+  Nat.eqb (length (invs st)) (length sn) && forallb (inv_matches kv (invs st)) sn.
 
 Record obs := mkObs { ob_ev : event; ob_reply : reply; ob_ntf : list resn;
                       ob_snap : list isnap }.
@@ -155,7 +180,7 @@ Fixpoint run_check (H : N -> N) (R : list (N * N) -> list (N * N)) (g : cfg) (st
   | o :: r =>
     let '(st', (rp, ntf)) := step H R g st (ob_ev o) in
     let ok := reply_eqb rp (ob_reply o) && perm_eqb ntf (ob_ntf o) &&
-              snap_matches st' (ob_snap o) in
+              snap_matches (g_kv g) st' (ob_snap o) in
     run_check H R g st' r (i + 1)%N (if ok then bad else i :: bad)
   end.
 
